@@ -27,17 +27,32 @@ CARGO_ENV.pop("RUSTUP_TOOLCHAIN", None)
 
 
 def sh(cmd, timeout=1200, env=None, cwd=None, input=None):
-    """Run a command; returns (rc, stdout+stderr). rc=124 on timeout."""
+    """Run a command in its own process group; returns (rc, stdout+stderr). rc=124 on timeout, in which case the
+    whole group is killed (cargo's rustc children would otherwise live on)."""
+    import signal
+    p = subprocess.Popen(cmd, shell=isinstance(cmd, str), cwd=cwd, env=env,
+                         stdin=subprocess.PIPE if input is not None else None,
+                         stdout=subprocess.PIPE, stderr=subprocess.STDOUT, text=True, errors="replace",
+                         start_new_session=True)
     try:
-        p = subprocess.run(cmd, shell=isinstance(cmd, str), cwd=cwd, env=env, input=input,
-                           stdout=subprocess.PIPE, stderr=subprocess.STDOUT, timeout=timeout,
-                           text=True, errors="replace")
-        return p.returncode, p.stdout
-    except subprocess.TimeoutExpired as e:
-        out = e.stdout or ""
-        if isinstance(out, bytes):
-            out = out.decode("utf-8", "replace")
-        return 124, out + "\n[timeout after %ss]" % timeout
+        out, _ = p.communicate(input=input, timeout=timeout)
+        return p.returncode, out
+    except subprocess.TimeoutExpired:
+        try:
+            os.killpg(p.pid, signal.SIGKILL)
+        except OSError:
+            pass
+        try:
+            out, _ = p.communicate(timeout=10)
+        except Exception:
+            out = ""
+        return 124, (out or "") + "\n[timeout after %ss]" % timeout
+    except BaseException:
+        try:
+            os.killpg(p.pid, signal.SIGKILL)
+        except OSError:
+            pass
+        raise
 
 
 class Lock:
